@@ -53,7 +53,9 @@ func (P) Describe() harness.Description {
 	}
 }
 
-var geos = []harness.Geometry{{20, 10000, 2, 1000}, {20, 10000, 2, 1000}, {10, 10000, 1, 1000}, {10, 5000, 2, 1000}, {8, 4000, 4, 2000}}
+var geos = []harness.Geometry{{20, 10000, 2, 1000}, {20, 10000, 2, 1000}, {10, 10000, 1, 1000}, {10, 5000, 2, 1000}, {8, 4000, 4, 2000},
+	// views whose buckets span two of the array's (the peak completion rate is a count per ARRAY bucket)
+	{20, 10000, 1, 1000}, {20, 10000, 2, 2000}}
 
 func (P) Gen(rng *sim.Rng, tier string) *harness.Case {
 	cfg := Cfg{Geo: geos[rng.Intn(len(geos))], Origin: 1700000000000 + rng.U64Range(0, 100000)}
@@ -282,7 +284,7 @@ func (P) Exec(c *harness.Case) *harness.Outcome {
 					} else {
 						minRt = float64(base.DefaultStatisticMaxRt)
 					}
-					peak := float64(ref.MaxBucket(model.KComplete, lo, hi)) * 1000 / float64(Iv/uint64(cfg.Geo.MetricSamples))
+					peak := float64(ref.MaxBucket(model.KComplete, lo, hi)) * 1000 / float64(Lg)
 					return float64(live) > peak*minRt/1000, false
 				}
 				for _, r := range mrules {
